@@ -56,8 +56,13 @@ func layoutsOf(fd *fmtDef, n int) []lay {
 		eols = append(eols, "CRLF")
 	}
 	sects := []int{0}
-	if fd.sects > 1 && n >= 2 {
-		sects = []int{0, 1, 2}
+	if fd.sects > 1 {
+		if n >= 2 {
+			sects = append(sects, 1, 2)
+		}
+		if (fd.nested && n >= 3) || (!fd.nested && n >= 1) {
+			sects = append(sects, 3)
+		}
 	}
 	for _, eol := range eols {
 		for _, tr := range fd.trailing {
@@ -106,7 +111,8 @@ func init() {
 				res["skipped"] = "fixture does not extract: " + err.Error()
 				return res, nil
 			}
-			// abstract: the set of distinct (name, version) pairs
+			// abstract: the set of distinct (name, version) pairs (sorted: map-based extractors return them in random order)
+			sortPairs(pairs)
 			seen := map[[2]string]bool{}
 			var recs []crec
 			var want [][2]string
